@@ -330,3 +330,23 @@ func TestF12b_ZeroSumAlias(t *testing.T) {
 		t.Errorf("z=-0 (ToNegativeInf); z.Add(z, +0) = +0, want -0")
 	}
 }
+
+// F17: Float of zero into an infinite big.Float
+func TestF17_FloatZeroIntoInf(t *testing.T) {
+	f := new(decimal.Decimal).Float(new(big.Float).SetInf(false))
+	if f.IsInf() || f.Sign() != 0 {
+		t.Errorf("new(Decimal).Float(+Inf big.Float) = %v, want 0", f)
+	}
+}
+
+// F18: precision MaxPrec must survive SetFloat64/SetFloat
+func TestF18_PrecWrap(t *testing.T) {
+	z := new(decimal.Decimal).SetPrec(decimal.MaxPrec).SetFloat64(0.5)
+	if z.Prec() != decimal.MaxPrec {
+		t.Errorf("SetPrec(MaxPrec).SetFloat64(0.5).Prec() = %d", z.Prec())
+	}
+	z = new(decimal.Decimal).SetPrec(decimal.MaxPrec).SetFloat(big.NewFloat(0.5))
+	if z.Prec() != decimal.MaxPrec {
+		t.Errorf("SetPrec(MaxPrec).SetFloat(0.5).Prec() = %d", z.Prec())
+	}
+}
